@@ -367,3 +367,64 @@ def mon_c03(sc, controller):
                             "missing": str(missing), "wrong(got,want)": str(wrong), "unexpected": str(extra), "event": idx})
             last_begin[i] = t
     return vio
+
+
+# ------------------------------------------------------------------ C16: asynchronous requests
+
+def mon_c16(sc, controller, outcome):
+    vio = []
+    n = len(sc["sims"])
+    conn_keys = {(c["dst"], c["deid"], c["dattr"], c["src"], c["seid"]) for c in sc["connects"]}
+    async_pairs = {(c["src"], c["dst"]) for c in sc["connects"] if c.get("async")}   # A -> B: B may write to A
+    pending = {}        # (A, eid, attr, src sim, src eid) -> value set since A's last begin
+    inflight = {i: None for i in range(n)}
+    for idx, e in enumerate(controller.full_trace):
+        if e[0] == "set_data":
+            B = sid_i(e[1])
+            for src_full, dests in e[3].items():
+                ssid, seid = src_full.split(".", 1)
+                for dest_full, attrs in dests.items():
+                    dsid, deid = dest_full.split(".", 1)
+                    A = int(dsid[1:])
+                    if (A, B) not in async_pairs:
+                        continue        # must be refused: checked on the outcome
+                    for a, v in attrs.items():
+                        pending[(A, int(deid), ATTRS.index(a), int(ssid[1:]), int(seid))] = v
+        elif e[0] == "begin":
+            A, t, inputs = sid_i(e[1]), tuple(e[2]), e[3]
+            got = {}
+            for eid, attrs in inputs.items():
+                for attr, srcs in attrs.items():
+                    for src, val in srcs.items():
+                        ssid, seid = src.split(".", 1)
+                        got[(A, int(eid), ATTRS.index(attr), int(ssid[1:]), int(seid))] = val
+            mine = {k: v for k, v in pending.items() if k[0] == A}
+            for k, v in mine.items():
+                if k in conn_keys:
+                    continue        # an ordinary connection feeds the same key: not distinguishable
+                if got.get(k, "<absent>") != v:
+                    vio.append({"law": "set_data value must be in the target's next step", "target": A, "t": t, "key": k[1:], "sent": v,
+                                "received": got.get(k, "<absent>"), "event": idx})
+                del pending[k]
+            # values of earlier set_data calls must not show up again
+            for k, v in got.items():
+                if k not in conn_keys and k not in mine and isinstance(v, int) and v >= 500000 and v < 900000:
+                    vio.append({"law": "set_data value delivered again in a later step", "target": A, "t": t, "key": k[1:], "value": v, "event": idx})
+            # order: A must not begin a step later than the step an agent has in flight
+            for (a, b) in async_pairs:
+                if a == A and inflight[b] is not None and t[0] > inflight[b][0]:
+                    vio.append({"law": "target began a later step while an agent's step is still running", "target": A, "t": t, "agent": b,
+                                "agent_step": inflight[b], "event": idx})
+            inflight[A] = t
+        elif e[0] == "stepped" and not has_outputs(sc, sid_i(e[1])):
+            inflight[sid_i(e[1])] = None
+        elif e[0] == "got":
+            inflight[sid_i(e[1])] = None
+    # requests without an async connection must be refused
+    for req in sc.get("extra_async", []):
+        if req["kind"] in ("set_data", "get_data") and (req["target"], req["sim"]) not in async_pairs:
+            steps = [e for e in controller.full_trace if e[0] == "begin" and sid_i(e[1]) == req["sim"]]
+            if len(steps) > req["n"] and outcome != f"failed ScenarioError async-refused {req['sim']}":
+                if not outcome.startswith("failed"):
+                    vio.append({"law": "set_data/get_data without an async connection must be refused with ScenarioError", "request": req, "outcome": outcome})
+    return vio
